@@ -48,6 +48,9 @@ def _retarget(t, old, new):
             t["t"] = new
 
 
+_SCALAR_TYS = ("bool", "u8", "u16", "u32", "u64", "usize", "i8", "i16", "i32", "i64", "isize")
+
+
 def _whole(pl):
     return pl is not None and not pl.get("p")
 
@@ -71,6 +74,8 @@ def _scan(bb, upto, x):
                     k = rv["op"]["k"]
                     if k.get("variant_idx") is not None and str(k.get("ty", "")).startswith(_IDX_IS_DISCR):
                         return ("known", k["variant_idx"])
+                    if isinstance(k.get("v"), int) and k.get("ty") in _SCALAR_TYS:
+                        return ("known", k["v"])          # a flag / small integer that is switched on directly
                     return ("unknown",)
                 if rv["k"] == "use":
                     pl = rv["op"].get("m") or rv["op"].get("c")
@@ -122,7 +127,12 @@ def simplify(body, max_rounds=40, max_blocks=4000):
                         x, at = s["rv"]["pl"]["l"], i
                     break
             if x is None:
-                continue
+                # `switch flag` on a bool / integer local that is not the discriminant of something: the local itself, when the
+                # values that reach it are constants (a helper answering `true` / `false` on different paths, after INLINE)
+                if t.get("dty") in _SCALAR_TYS and not any(s_["k"] == "assign" and s_["lhs"]["l"] == d for s_ in S["s"]):
+                    x, at = d, len(S["s"])
+                else:
+                    continue
             # walk back
             chain = [si]
             cur, upto, var = si, at, x
